@@ -269,9 +269,12 @@ class Gen:
             # await-group with actions (and optionally a flow): the scope stops the losers of an or-group
             op = d.choice(["and", "or", "or"], key, "gop")
             leaves = []
+            # sometimes the members of the group ask for the very same action (same name, same arguments): two heads of ONE flow
+            # instance then reach an identical action start in the same step
+            same = d.chance(0.25, key, "gsame")
             for j in range(d.randint(2, 3, key, "ng")):
-                name, par = d.choice(ACTIONS, key, "gact", j)
-                leaves.append('%s(%s="%s")' % (name, par, self.fresh("s")))
+                name, par = (ACTIONS[0] if same else d.choice(ACTIONS, key, "gact", j))
+                leaves.append('%s(%s="%s")' % (name, par, d.choice(["g1", "g2"], key, "gsv", j) if same else self.fresh("s")))
             tgt = self.flow_ref(i, (key, "gflow")) if d.chance(0.3, key, "gf") else None
             if tgt:
                 leaves[-1] = tgt
